@@ -177,6 +177,25 @@ def run (case impl : String) : String :=
       | some n, some s, some lo, some hi, some reuse, some inuse, some taken, some broken =>
         if loc == "lo" || loc == "any" then connCheck n s lo hi (reuse != 0) inuse taken broken impl else "bad-case"
       | _, _, _, _, _, _, _, _ => "bad-case"
+    | ["planfill", shards, pick, reps] =>
+      -- checker: `max m0,m1,.. yields k` - every node is yielded once per iteration, and the largest shard seen for a node
+      -- is one `with_random_shard_if_unknown` can produce: below `fillCount` of its sharder (0 = no sharder)
+      match parseNatList shards, reps.toNat? with
+      | some ks, some reps =>
+        if ks.isEmpty || !(pick == "none" || (pick.toNat?.map (fun i => decide (i < ks.length))).getD false) then "bad-case" else
+        match words impl with
+        | "skip" :: _ => impl
+        | ["max", ms, "yields", y] =>
+          let mw := ms.splitOn ","
+          let ok := mw.length == ks.length && y.toNat? == some (reps * ks.length) &&
+            (ks.zip mw).all (fun (k, m) =>
+              let count := fillCount (if k == 0 then none else some k)
+              match m.toNat? with
+              | some m => reps != 0 && decide (withRandomShard none m < count)
+              | none => m == "-" && reps == 0)
+          if ok then impl else "REJECT a-filled-in-shard-must-be-below " ++ natList (ks.map (fun k => fillCount (if k == 0 then none else some k)))
+        | _ => "REJECT unparsable"
+      | _, _ => "bad-case"
     | ["sess", n, lo, hi, reuse, inuse, taken] =>
       match n.toNat?, lo.toNat?, hi.toNat?, reuse.toNat?, parseNatList inuse, parseNatList taken with
       | some n, some lo, some hi, some reuse, some inuse, some taken => sessCheck n lo hi (reuse != 0) inuse taken impl
